@@ -128,7 +128,7 @@ func H_C19_order() {
 func H_C19_rounds() {
 	R := 2
 	if tierThorough() {
-		R = 3
+		R = 4
 	}
 	cl := &vPingClient{}
 	hc := NewHealthCheck(&config.HealthCheck{Interval: time.Minute, Timeout: time.Second}, cl).(*healthCheck)
